@@ -63,7 +63,9 @@ typedef struct {
 } cfg_t;
 
 static const cfg_t cfgs[] = {
-    /* ---- quick, cheapest first ------------------------------------------- */
+    /* ---- quick (a deadline cuts the tail, not the head) ------------------- */
+    { "sched_finish, stacked BASIC (automatic): [U,E,U] + primary pushes", 1,
+      M_SFIN, W_STACKED, K_BASIC, 1, 1, 1, PUSH_PRIMARY, 0, 0 },
     { "xstream_exit, main BASIC: [U,E,U,U] + primary pushes; join, revive, "
       "push 2, join, free", 1, M_XEXIT, W_MAIN, K_BASIC, 1, 1, 2, PUSH_PRIMARY, 0,
       0 },
@@ -79,8 +81,6 @@ static const cfg_t cfgs[] = {
     { "xstream_exit, main BASIC: [E(yields),U] + primary pushes; primary polls "
       "for TERMINATED, then joins", 1, M_XEXIT, W_MAIN, K_BASIC, 1, 0, 1,
       PUSH_PRIMARY, 1, 1 },
-    { "sched_finish, stacked BASIC (automatic): [U,E,U] + primary pushes", 1,
-      M_SFIN, W_STACKED, K_BASIC, 1, 1, 1, PUSH_PRIMARY, 0, 0 },
     /* ---- thorough only --------------------------------------------------- */
     { "xstream_exit, main BASIC_WAIT/FIFO_WAIT: [U,E(yields),U,U] + X pushes", 0,
       M_XEXIT, W_MAIN, K_BASIC_WAIT, 1, 1, 2, PUSH_EXT, 0, 1 },
